@@ -102,7 +102,7 @@ def s_cfg(secure, proxied):
     cp = (None, "/ca/dir")[sx.choice("ca_cert_path", 2)]
     sh = (None, "alt.example")[sx.choice("server_hostname", 2)]
     env_kind = ("unset", "file", "dir", "neither")[sx.choice("env", 4)]
-    extra = ("none", "context", "certfile", "ciphers", "version")[sx.choice("extra", 5)]
+    extra = ("none", "context", "certfile", "ciphers", "version", "version-tls", "version-tls12")[sx.choice("extra", 7)]
     sslopt = {}
     if cr != "absent":
         sslopt["cert_reqs"] = CERT[cr]
@@ -124,6 +124,10 @@ def s_cfg(secure, proxied):
         sslopt["ciphers"] = "HIGH"
     elif extra == "version":
         sslopt["ssl_version"] = _ssl.PROTOCOL_TLS_CLIENT
+    elif extra == "version-tls":
+        sslopt["ssl_version"] = _ssl.PROTOCOL_TLS  # a protocol constant whose context does NOT check host names by default
+    elif extra == "version-tls12":
+        sslopt["ssl_version"] = _ssl.PROTOCOL_TLSv1_2
     env = {}
     if env_kind != "unset":
         env["WEBSOCKET_CLIENT_CA_BUNDLE"] = {"file": "/env/bundle.pem", "dir": "/env/certs", "neither": "/env/missing"}[env_kind]
@@ -223,8 +227,8 @@ def obligations(tier):
     return [
         Obligation("S-cfg", s_cfg, [dict(secure=s, proxied=p) for s in (False, True) for p in (False, True)],
                    bounds="full product: cert_reqs {absent, NONE, OPTIONAL, REQUIRED} x check_hostname {absent, True, False} x ca_certs x ca_cert_path x "
-                          "server_hostname x WEBSOCKET_CLIENT_CA_BUNDLE {unset, file, dir, neither} x {no extra, user context, certfile, ciphers, ssl_version} "
-                          "x ws/wss x direct/HTTP proxy (3840 configurations)",
+                          "server_hostname x WEBSOCKET_CLIENT_CA_BUNDLE {unset, file, dir, neither} x {no extra, user context, certfile, ciphers, ssl_version = TLS_CLIENT / TLS / TLSv1_2} "
+                          "x ws/wss x direct/HTTP proxy (10752 configurations)",
                    outside=["acceptance/rejection of certificates by OpenSSL (C, FFI, live I/O)"],
                    must_cover=["plain", "tls", "default-verified", "user-context", "contradictory"], budget_s=1800, step_budget=200000,
                    kernel=["_http.connect", "_ssl_socket", "_wrap_sni_socket", "_tunnel", "_get_addrinfo_list"]),
